@@ -1,4 +1,5 @@
 import Crv.Proofs.Repo
+import Crv.Proofs.Skeleton
 import Crv.Props.C11
 /-!
 C08 — refresh is all-or-nothing and a failed refresh keeps the previous CRL in force.
@@ -267,5 +268,15 @@ theorem lock_discipline : lookupHoldsReadLock = true ∧ swapHoldsWriteLock = tr
 
 -- Non-vacuity: a schedule in which a lookup tries to get in while the store is cleared.
 example : (runSched [.enter, .read, .writer, .writer, .enter, .read, .writer, .writer, .enter, .read]).answers = [.old, .new] := by decide
+
+/-- The hand-written `Repo` model this property rests on was transcribed from exactly these sources: the fingerprints are
+recomputed from /repo on every run (tools/extract/skeleton.go), so any change to one of the functions breaks this obligation. -/
+theorem repo_sources_as_transcribed : Crv.Generated.skeletonRepo = Crv.Skeleton.expectedRepo :=
+  Crv.Skeleton.repo_sources_as_transcribed
+
+/-- The hand-written `Store` model this property rests on was transcribed from exactly these sources: the fingerprints are
+recomputed from /repo on every run (tools/extract/skeleton.go), so any change to one of the functions breaks this obligation. -/
+theorem store_sources_as_transcribed : Crv.Generated.skeletonStore = Crv.Skeleton.expectedStore :=
+  Crv.Skeleton.store_sources_as_transcribed
 
 end Crv.Props.C08
